@@ -8,6 +8,7 @@ CONSTANTS
   AllowDup = FALSE
   AllowNoPath = TRUE
   AllowStale = TRUE
+  WholeOnly = FALSE
   Sizes = {1}
   FixCommonSnapshot = FALSE
 INVARIANT Inv
